@@ -174,6 +174,14 @@ From GoArt Require Import Gen.PoolSites Proofs.PoolSiteFacts.
 Theorem C12_every_put_is_cleared : forallb put_cleared pool_puts = true.
 Proof. exact PoolSiteFacts.every_put_is_cleared. Qed.
 Print Assumptions C12_every_put_is_cleared.
+
+(* a Get that finds nothing to recycle calls New: pool.go's New of the k-th pool is exactly `return new(nodeK)`,
+   the zero node the model's `get Fresh k` hands out, and pool.go declares no other package-level variable *)
+Theorem C12_pool_new_is_the_zero_node :
+  pool_news = map (fun k => (Pool.kind_name k, true)) [Pool.K4; Pool.K16; Pool.K48; Pool.K256] /\
+  pool_go_package_vars = 1%N.
+Proof. exact pool_new_is_the_zero_node. Qed.
+Print Assumptions C12_pool_new_is_the_zero_node.
 Theorem C12_put_sites_are_the_modelled_ones :
   map put_fn pool_puts =
   ["*node4.addChild"; "*node4.deleteChild"; "*node16.addChild"; "*node16.deleteChild";
